@@ -456,6 +456,9 @@ impl Inst {
         cb.ping_interval(Duration::from_secs(1_000_000));
         // (the lookups' own timeouts read the real clock; a case takes milliseconds, but on a loaded
         // machine it may take seconds: keep them out of reach)
+        // (the scripted handler has no use for the request timeout; the application may hold on to a
+        // TALK request for longer than the peer will wait - here that is 120 ms)
+        cb.request_timeout(Duration::from_millis(60));
         cb.query_peer_timeout(Duration::from_secs(3600));
         cb.query_timeout(Duration::from_secs(7200));
         cb.enr_peer_update_min(vote_min.max(2));
